@@ -4,7 +4,7 @@ from props.common import TRUSTED_BASE, ASSUMPTIONS
 
 ID = "C10"
 FORMAT_GROUP = "total"
-LEAN_MODULES = ["LexVerif.Props.Literals.UtilError", "LexVerif.Props.Literals.UtilResult", "LexVerif.Props.C10", "LexVerif.Props.C04Format", "LexVerif.Props.C10Debug", "LexVerif.Props.Literals.ParseFloatParse", "LexVerif.Props.Literals.ParseFloatShared", "LexVerif.Props.Literals.ParseIntegerAlgorithm", "LexVerif.Props.Literals.UtilSkip", "LexVerif.Props.Literals.UtilNoskip", "LexVerif.Props.Literals.UtilIterator", "LexVerif.Props.Literals.UtilDigit", "LexVerif.Props.Literals.ParseFloatApi", "LexVerif.Props.Literals.ParseIntegerApi", "LexVerif.Props.Literals.ParseFloatSlow", "LexVerif.Props.Literals.ParseFloatBigint"]
+LEAN_MODULES = ["LexVerif.Props.TablesParse", "LexVerif.Props.Literals.ParseFloatLemire", "LexVerif.Props.Literals.ParseFloatFloat", "LexVerif.Props.Literals.ParseFloatNumber", "LexVerif.Props.Literals.ParseFloatBellerophon", "LexVerif.Props.Literals.ParseFloatMask", "LexVerif.Props.Literals.ParseFloatLimits", "LexVerif.Props.Literals.ParseFloatBinary", "LexVerif.Props.Literals.ParseFloatLibm", "LexVerif.Props.Literals.ParseFloatFpu", "LexVerif.Props.Literals.UtilError", "LexVerif.Props.Literals.UtilResult", "LexVerif.Props.C10", "LexVerif.Props.C04Format", "LexVerif.Props.C10Debug", "LexVerif.Props.Literals.ParseFloatParse", "LexVerif.Props.Literals.ParseFloatShared", "LexVerif.Props.Literals.ParseIntegerAlgorithm", "LexVerif.Props.Literals.UtilSkip", "LexVerif.Props.Literals.UtilNoskip", "LexVerif.Props.Literals.UtilIterator", "LexVerif.Props.Literals.UtilDigit", "LexVerif.Props.Literals.ParseFloatApi", "LexVerif.Props.Literals.ParseIntegerApi", "LexVerif.Props.Literals.ParseFloatSlow", "LexVerif.Props.Literals.ParseFloatBigint"]
 GEN = ["literals"]
 PROFILES = {"quick": ["release", "dbg"], "thorough": ["release", "dbg"]}
 TRUSTED = TRUSTED_BASE + [
@@ -65,7 +65,38 @@ def streams(tier, rng, fs, profile):
     for fam, ops in fams.items():
         out.append(("g-total-" + fam, list(dict.fromkeys(ops))))
     out.append(("g-total-invalid-format", list(dict.fromkeys(gens_total.invalid_format_ops(rng, fs)))))
+    out.append(("g-total-numeric", numeric_edge_ops(rng, fs, tier == "quick")))
     return out
+
+
+def numeric_edge_ops(rng, fs, quick):
+    """totality of the VALUE computation: one near-midpoint-free decimal per binade over the whole exponent range (far below the
+    smallest subnormal to far above the largest float: table index and shift cut-offs of Eisel-Lemire / Bellerophon), the
+    exponent cut-offs of C01's G-exp, exact ties, and long digit strings (big-integer path); values are C01's business"""
+    import gens
+    from fractions import Fraction
+    ops = []
+    fmt = gens.fmt_hex(gens.pack(10))
+    for ty, lo, hi in (("f64", -1160, 1040), ("f32", -230, 140)):
+        for e in range(lo, hi, 1 if not quick else 1):
+            m = rng.choice([3, 5, 7, 11, 13, 1023, 4097])
+            v = Fraction(m) * (Fraction(2) ** e)
+            # shortest-ish decimal rendering with 3..17 significant digits and an explicit exponent
+            import math
+            q = math.floor(math.log10(m) + e * math.log10(2))
+            nd = rng.choice([1, 2, 3, 9, 17, 19, 25])
+            digits = int(v / (Fraction(10) ** (q - nd + 1)))
+            s = "%de%d" % (digits, q - nd + 1)
+            ops.append(gens.pf_op(ty, fmt, s, 10, partial=rng.choice([0, 1])))
+            if rng.random() < 0.3:
+                ops.append("dpf %s %d %s" % (ty, rng.choice([0, 1]), gens.hexs(s)))
+    ops += gens.float_exp_ops(rng, fs, [10])
+    ops += gens.exact_tie_ops(rng, fs, per_q=1 if quick else 6)
+    for n in (20, 40, 100, 400, 767, 768, 769, 1200):
+        d = "".join(rng.choice("0123456789") for _ in range(n))
+        for s in ("1" + d, "0." + d, "1." + d + "e-320", d + "e300", "0." + "0" * 330 + d):
+            ops.append(gens.pf_op(rng.choice(["f64", "f32"]), fmt, s, 10))
+    return ops
 
 
 def compare(op, impl_result, spec_result):
